@@ -34,6 +34,7 @@ BOUNDARY = {
 MAY_PANIC = ("::unwrap", "::expect", "::unwrap_err", "::expect_err", "::index", "::index_mut", "::split_at", "::split_at_mut",
              "::copy_from_slice", "::clone_from_slice", "::swap_remove", "Vec::remove", "Vec::insert", "Vec::drain", "Vec::split_off", "Vec::truncate_front",
              "String::remove", "String::insert", "String::insert_str", "String::drain", "String::split_off", "String::replace_range",
+             "String::truncate", "str::split_at", "::split_at_mut", "::floor_char_boundary_unchecked", "str::get_unchecked", "::slice_unchecked",
              "::borrow_mut", "RefCell::borrow", "::chunks", "::chunks_exact", "::windows", "::step_by", "::from_digit", "::to_digit",
              "::pow", "::abs", "::swap", "::rotate_left", "::rotate_right", "::select_nth_unstable", "::unwrap_unchecked",
              "Duration::new", "Duration::from_secs_f64", "Duration::from_secs_f32", "<std::time::Instant as std::ops::Sub", "<std::time::Instant as std::ops::Add",
@@ -190,7 +191,7 @@ def rule_scope(ctx):
 def rule_index(ctx):
     """Every bounds Assert and every range Index in the input layer is implied by dominating guards."""
     n = audit_index(ctx, scope_bodies(ctx.ix)[0])
-    ctx.floor("index sites in the input layer", n, 10)
+    ctx.floor("index sites in the input layer", n, 2)    # 26 on the reference tree; slice patterns / get() legitimately remove sites
 
 
 def type_max_of_index(ix, b, op):
@@ -352,7 +353,7 @@ def rule_arith(ctx):
     """Overflow / division asserts in the input layer cannot fire."""
     n = audit_arith(ctx, scope_bodies(ctx.ix)[0])
     if ctx.config == "dev":
-        ctx.floor("arithmetic asserts in the input layer", n, 8)
+        ctx.floor("arithmetic asserts in the input layer", n, 2)
     else:
         ctx.check(True, "arith-sites-enumerated", "%d arithmetic assert(s) in this configuration (overflow checks are compiled out in release)" % n)
 
@@ -549,6 +550,8 @@ def audit_may_panic(ctx, bodies):
                 continue
             if c.endswith("::unwrap_or") or c.endswith("::unwrap_or_else") or c.endswith("::unwrap_or_default"):
                 continue
+            if c.endswith("_checked") or c.endswith("::checked_pow") or c.endswith("::checked_abs"):
+                continue    # the Option-returning twins (split_at_checked, ..) do not panic
             n += 1
             sym = sym or mir.Sym(b, ix)
             recv = expr_str(sym.operand(t["args"][0])) if t.get("args") else ""
@@ -589,6 +592,36 @@ def rule_io_and_exits(ctx):
     b = ctx.body(UCI_LOOP)
     sym = ctx.sym(b)
     reads = [(bi, t) for bi, t in b.calls() if callee_is(t, "*::read_line", "*::read_until", "*Lines*::next")]
+    # `for line in input.lines().map_while(Result::ok)`: the read happens inside `next`; the iteration ends at end of input and
+    # at the first read error alike (map_while stops at the first None of Result::ok)
+    line_iters = []
+    for bi, t in b.calls():
+        if (t.get("callee") or "").endswith("::next") and t.get("args"):
+            q = op_place(t["args"][0])
+            ty = b.locals[q["l"]]["ty"] if q is not None else ""
+            if "std::io::Lines<" in ty:
+                line_iters.append((bi, t, ty))
+    if not reads and len(line_iters) == 1:
+        rb, rt, ty = line_iters[0]
+        ok_ty = ty.lstrip("&").replace("mut ", "").startswith("std::iter::MapWhile<std::io::Lines<") and "Result::<" in ty and "::ok}" in ty
+        ctx.check(True, "%s:one-read" % UCI_LOOP, "uci_loop reads input at one site (an iterator over its lines)", b.where(rb))
+        ctx.check(ok_ty, "%s:read-error-handled" % UCI_LOOP, "the line iterator ends at the first read error (map_while(Result::ok))", b.where(rb),
+                  bad_what="uci_loop iterates over `%s`: a read error is neither an end of the loop nor handled (flatten()/filter_map(ok) spin on a persistent error; unwrap panics)" % ty[:120])
+        parse = {bi for bi, t in b.calls() if callee_is(t, "uci::uci_command::UCICommand::new")}
+        none_exit = False
+        for blk in b.blocks:
+            if blk.cleanup or blk.term["k"] != "switch":
+                continue
+            e = sym.operand(blk.term["discr"])
+            if e[0] == "discr" and expr_str(e[1]) == b.local_name(rt["dest"]["l"]) or (e[0] == "discr" and isinstance(e[1], tuple) and e[1][0] == "call" and str(e[1][1]).endswith("::next") and "Lines" in ty):
+                for a in blk.term["arms"]:
+                    if a[0] == 0:
+                        reach = b.threaded_reach(a[1])
+                        none_exit = none_exit or (mir.EXIT in reach and not (reach & parse))
+        ctx.check(none_exit, "%s:exit-on-end-of-input" % UCI_LOOP, "when the line iterator is exhausted the loop is left without parsing anything", b.where(rb),
+                  bad_what="the exhausted line iterator does not end uci_loop")
+        _quit_exit(ctx, ix, b, sym, parse, rb)
+        return
     ctx.check(len(reads) == 1, "%s:one-read" % UCI_LOOP, "uci_loop reads input at one site", b.where(0), bad_what="uci_loop has %d read sites" % len(reads))
     if len(reads) != 1:
         return
@@ -629,6 +662,10 @@ def rule_io_and_exits(ctx):
     ctx.check(bool(count_exits), "%s:exit-on-end-of-input" % UCI_LOOP,
               "the loop has an exit edge controlled by read_line's byte count (0 = end of input)", b.where(rb),
               bad_what="the byte count returned by read_line is never tested: when stdin is closed the loop spins forever on empty lines instead of terminating")
+    _quit_exit(ctx, ix, b, sym, parse, rb)
+
+
+def _quit_exit(ctx, ix, b, sym, parse, rb):
     # (3) Quit exit
     adt = ix.adt(UCICOMMAND)
     quit_idx = [int(v["discr"]) for v in adt["variants"] if v["name"] == "Quit"]
@@ -795,9 +832,29 @@ def rule_errors_continue(ctx):
     c10.rule_no_swallow(ctx)
 
 
-RULES = [("scope", rule_scope), ("index", rule_index), ("arith", rule_arith), ("no-assert-on-input", rule_no_assert_on_input),
+def rule_counter_widths(ctx):
+    """The audit of `position .. moves` accepted `clock + 1` / `counter + 1` in make_move because the counters are 16 bits
+    wide: overflowing them takes a command of more than 65 000 moves.  That argument is gone if a counter is narrowed (a
+    `u8` half-move clock overflows on the 256th reversible ply of a replayed game, panicking the input thread in debug
+    builds and wrapping in release)."""
+    ix = ctx.ix
+    want = (("board::ply::Ply", "halfmove_clock"), ("board::Board", "fullmove_counter"), ("board::boardbuilder::BoardBuilder", "halfmove_clock"),
+            ("board::boardbuilder::BoardBuilder", "fullmove_counter"))
+    for adt, fld in want:
+        a = ix.adts.get(adt)
+        ty = next((f["ty"] for v in (a or {}).get("variants", []) for f in v["fields"] if f["name"] == fld), None)
+        bits = {"u16": 16, "u32": 32, "u64": 64, "usize": 64, "u128": 128}.get(ty)
+        ctx.check(bits is not None, "%s.%s" % (adt.split("::")[-1], fld), "%s.%s is %s: at least 16 bits, so a replayed game cannot overflow it" % (adt.split("::")[-1], fld, ty), None,
+                  bad_what="%s.%s has type %s: narrower than the 16 bits the panic audit of make_move relies on (`+ 1` overflows after %s moves of a `position .. moves` line)"
+                  % (adt.split("::")[-1], fld, ty, {"u8": 255, "i8": 127, "i16": 32767}.get(ty, "few")))
+
+
+RULES = [("counter-widths", rule_counter_widths), ("scope", rule_scope), ("index", rule_index), ("arith", rule_arith), ("no-assert-on-input", rule_no_assert_on_input),
          ("unwrap", rule_unwrap), ("boundary", rule_boundary), ("io-exits", rule_io_and_exits), ("nonblocking", rule_nonblocking),
          ("loops", rule_loops), ("errors-continue", rule_errors_continue)]
+# `position fen <valid FEN>` reaches the FEN loader's panic arms only for strings outside the alphabet; that the alphabet the
+# loader accepts is the whole valid one is C07's tables (a half-open `'a'..'h'` makes a valid FEN kill the input thread)
+RULES += engine.premise_rules("c07", ["letters", "side-ep", "castle-letters", "fields"])
 
 
 CLIPPY_LINTS = ("indexing_slicing", "unwrap_used", "expect_used", "panic", "unreachable", "unimplemented", "todo", "exit")
